@@ -134,8 +134,9 @@ def jobs(tier):
         out.append({"harness": "cold-crash", "params": {"flavour": f, "mode": "crash", "maxcrash": 45}, "label": "%s/cold-start/crash" % f})
         for side in (0, 1):
             for op in OPS:
-                out.append({"harness": "crash", "params": {"flavour": f, "nops": 2 if q else 3, "maxcrash": 10 if q else 14, "first": [side, op]},
-                            "label": "%s/%d-ops/first=%d:%s" % (f, 2 if q else 3, side, op)})
+                n = 2 if (q or f != "oid") else 3
+                out.append({"harness": "crash", "params": {"flavour": f, "nops": n, "maxcrash": 10 if q else 14, "first": [side, op]},
+                            "label": "%s/%d-ops/first=%d:%s" % (f, n, side, op)})
     return out
 
 
